@@ -181,6 +181,10 @@ fn run(input: RunInput) -> ScenFuture {
                     w.violate("delivered-not-intact", key.clone(), format!("rpc {i}: request seen by the handler differs from what was sent"));
                 }
             }
+            let times = h.seen().iter().filter(|s| s.route.starts_with("/n") && parse_route(&s.route).0 == i).count();
+            if times > 1 {
+                w.violate("request-delivered-twice", key.clone(), format!("rpc {i} ({verdict}) reached the handler {times} times"));
+            }
             if (verdict == "sender-refuses-request" || verdict == "receiver-refuses-request") && handled {
                 w.violate("handler-invoked-for-refused-request", key.clone(), format!("rpc {i}: {verdict} but the handler ran"));
             }
